@@ -220,12 +220,19 @@ def self_check(text_unsplit, segs_by_name, workdir, names, start_year=2000, unti
         for t in sorted(pts):
             if not (lo <= t < hi):
                 continue
-            d = dt.datetime.fromtimestamp(t, dt.timezone.utc).astimezone(z)
+            u = dt.datetime.fromtimestamp(t, dt.timezone.utc)
+            d = u.astimezone(z)
             want = lookup(segs, t)
-            got = (int(d.utcoffset().total_seconds()), d.tzname())
+            if want[0] is None and want[2]:
+                # before the first transition zoneinfo substitutes "the first standard-time type" for the file's type 0
+                # (RFC 8536 says type 0): when type 0 is a DST type the two readers legitimately differ; not compared
+                continue
+            # the offset fromutc() really applied (d.utcoffset() would look the *local* time up again, which is
+            # ambiguous when two transitions fall within the same local hour)
+            applied = int((d.replace(tzinfo=None) - u.replace(tzinfo=None)).total_seconds())
             checked += 1
-            if got != (want[1], want[3]):
-                bad.append((n, t, got, want))
+            if applied != want[1] or (int(d.utcoffset().total_seconds()) == applied and d.tzname() != want[3]):
+                bad.append((n, t, (applied, d.tzname()), want))
                 break
     return bad, checked
 
